@@ -1328,10 +1328,10 @@ pub(super) fn judge01(cfg: &Cfg, m: &mut M01, tr: &Transition, mut rep: Option<&
                     }
                     if let Some(a) = cfg.acc {
                         if m.acc > a as i128 {
-                            // a step of i64::MIN units (or one that follows it, the reported sum
-                            // being negative from then on) is the wrapped-abs defect; anything
-                            // else is a plain failure of the accumulated check
-                            let class = if d == i64::MIN || m.acc > i64::MAX as i128 {
+                            // fingerprint of the wrapped |i64::MIN| (D5, fixed in /repo by ca2ac96):
+                            // the daemon's own published sum has gone negative; anything else is
+                            // a plain failure of the accumulated check
+                            let class = if u.view.3 < 0 {
                                 "C01:i64min-step-evades-accumulated-threshold"
                             } else {
                                 "C01:accumulated-threshold-exceeded"
@@ -1456,6 +1456,9 @@ fn alphabet01_full() -> Vec<Ev> {
             }
         }
     }
+    // since the two-way offset is the exact mean of two differences (0dbba1a) it can take any value
+    v.push(Ev::meas(A, i64::MIN, MS, S));
+    v.push(Ev::meas(A, i64::MAX, MS, S));
     let mut og = offsets_two_way();
     og.push(i64::MIN);
     og.push(i64::MIN + 1); // what a SOCK sample with offset >= +2^31 s turns into
@@ -1600,7 +1603,7 @@ fn check() {
          per configuration (7 startup/single window pairs x accumulated in {{none,100 s,1800 s}} x {{min_agree, step_threshold, HashMap order}} variants) \
          and per start state (fresh / A in Kalman stage / accumulated = threshold-50 s / slew in flight): \
          all histories of <= {d_full} events (thorough: 3 for the first, 2 for the second variant of each window/accumulated pair) over the {}-symbol full alphabet (measurements of A,B,G with offsets 0,+-0.2,+-700,+-1500,+-90000,+-2^30 s, \
-         G also i64::MIN, i64::MIN+1, i64::MAX units, dt 1 s|64 s; 8-sample bursts; clock meddling; queued measurement + single delivery; slew-end timer; usable on/off; remove) \
+         G also i64::MIN, i64::MIN+1, i64::MAX units, A also i64::MIN/MAX, dt 1 s|64 s; 8-sample bursts; clock meddling; queued measurement + single delivery; slew-end timer; usable on/off; remove) \
          and of <= {d_core} events over the {}-symbol core alphabet; plus, for three of the configurations with the one-way source made periodic (period 1 s), \
          all histories of <= {d_per} events over a 14-symbol alphabet (sub-period offsets of the periodic source, voting two-way sources). States deduplicated on the exact bit pattern of all controller/source/channel/timer/clock state. \
          Distinct & non-trivial = a distinct end state reached by a transition in which the controller was invoked.",
@@ -1618,13 +1621,16 @@ fn check() {
     {
         let t = NtpTimestamp::from_fixed_int(1u64 << 63);
         let wrapper = du(NtpTimestamp::from_fixed_int(0) - t); // OneWaySourceControllerWrapper: sender_ts - receiver_ts
-        let sock_pos = du((t - NtpDuration::from_seconds(2_147_483_648.0)) - t); // sock_source.rs with sample.offset = +2^31 s
-        let sock_neg = du((t - NtpDuration::from_seconds(-2_147_483_649.0)) - t);
+        // sock_source.rs (HEAD 9c8a557): sender_ts = time + from_seconds(sample.offset), receiver_ts = time
+        let sock = du((t + NtpDuration::from_seconds(-2_147_483_648.0)) - t);
+        // sock_source.rs before 7b8e8e3: sender_ts = time - from_seconds(sample.offset)
+        let sock_old = du((t - NtpDuration::from_seconds(2_147_483_648.0)) - t);
         ctx.note(
             "extreme_offset_reachability",
             &format!(
-                "sender_ts - receiver_ts for timestamps 2^31 s apart = {wrapper} units; SOCK sample offset +2^31 s -> {sock_pos} units; SOCK sample offset -(2^31+1) s -> {sock_neg} units; \
-                 to_seconds() of both i64::MIN and i64::MIN+1 is below -2^31, so NtpDuration::from_seconds(change) of the resulting correction saturates to i64::MIN"
+                "one-way wrapper: sender_ts - receiver_ts for timestamps 2^31 s apart = {wrapper} units; SOCK sample offset -2^31 s -> {sock} units \
+                 (before 7b8e8e3: sample offset +2^31 s -> {sock_old} units); to_seconds() of both i64::MIN and i64::MIN+1 is below -2^31, so \
+                 NtpDuration::from_seconds(change) of the resulting correction saturates to i64::MIN; since 0dbba1a (exact mean) two-way offsets span the whole i64 range too"
             ),
         );
     }
